@@ -2,7 +2,7 @@ import logging
 from collections import defaultdict
 from dataclasses import dataclass
 from .stmt import (
-    Stmt, IfBlock, VarDeclClause, ArrayDimRange, CallStmt,
+    Stmt, Block, IfBlock, VarDeclClause, ArrayDimRange, CallStmt,
     ReturnValueSetStmt, FunctionBlock, SubBlock, SimpleCaseClause,
     RangeCaseClause, CompareCaseClause, CaseElseStmt, SelectBlock,
 )
@@ -219,6 +219,22 @@ class Pass1(CompilePass):
         super().__init__(compilation)
         self._last_label = None
         self._cur_blocks = []
+
+        # statements that open or close a block; the parser turns them
+        # into block nodes, so any of them still present in the tree
+        # (e.g. inside a single-line IF) is misplaced
+        self._block_stmt_types = (
+            tuple(Block.known_blocks.keys()) +
+            tuple(b.end_stmt for b in Block.known_blocks.values())
+        )
+
+    def process_tree(self, tree):
+        if isinstance(tree, self._block_stmt_types):
+            raise CompileError(
+                EC.BLOCK_MISMATCH,
+                f'{tree.node_name()} is not allowed here',
+                node=tree)
+        super().process_tree(tree)
 
     def process_label_pre(self, node):
         if node.name in self.compilation.all_labels:
